@@ -585,7 +585,10 @@ func (i *c15Inst) apply(op int) (string, []rep.Violation) {
 		switch o.kind {
 		case "item":
 			it := s.addItem(o, o.typ, o.sym, o.level, o.start, "AddListItem")
-			s.doc.AddListItem(it.Text, &document.ListConfig{Type: o.typ, BulletSymbol: o.sym, StartNumber: o.start, IndentLevel: o.level})
+			lc := &document.ListConfig{Type: o.typ, BulletSymbol: o.sym, StartNumber: o.start, IndentLevel: o.level}
+			s.doc.AddListItem(it.Text, lc)
+			// the configuration object is the caller's: it is reused for something else after the call
+			*lc = document.ListConfig{Type: document.ListTypeUpperRoman, BulletSymbol: document.BulletTypeDot, StartNumber: 99, IndentLevel: 8}
 			s.m.Items = append(s.m.Items, it)
 			i.lastNT = true
 		case "item-nil":
@@ -787,7 +790,12 @@ func (i *c15Inst) apply(op int) (string, []rep.Violation) {
 			if !o.nilc {
 				cfg = &document.TOCConfig{Title: o.title, MaxLevel: o.max, ShowPageNum: true, RightAlign: true, UseHyperlink: true, DotLeader: true}
 			}
-			if err := s.doc.GenerateTOC(cfg); err != nil {
+			err := s.doc.GenerateTOC(cfg)
+			if cfg != nil {
+				// the caller's configuration object is reused for something else after the call
+				*cfg = document.TOCConfig{Title: "config object reused by the caller", MaxLevel: 1}
+			}
+			if err != nil {
 				add("toc|generate-failed", "toc", err.Error())
 				outcome = "error"
 				return
@@ -825,6 +833,9 @@ func (i *c15Inst) apply(op int) (string, []rep.Violation) {
 						cfg = &document.TOCConfig{Title: o.title, MaxLevel: o.max, ShowPageNum: true, RightAlign: true, UseHyperlink: true, DotLeader: true}
 					}
 					err = s.doc.AutoGenerateTOC(cfg)
+					if cfg != nil {
+						*cfg = document.TOCConfig{Title: "config object reused by the caller", MaxLevel: 1}
+					}
 					if err == nil {
 						s.m.Tocs = []c15Toc{{Max: o.max, Title: o.title, Entries: s.fresh(o.max), After: "AutoGenerateTOC", Auto: true}}
 						i.lastNT = true
